@@ -128,6 +128,54 @@ fn run_held(e: &'static Engine, workers: usize, parts: &'static [(char, &'static
     e.note(&out);
 }
 
+/// store-buffer member: a harness thread holds the lock, the coroutine W queues up and is cancelled; the holder unlocks
+/// in the instant in which W has registered its release (label behind SyncBlocker::set_release), i.e. while W is between
+/// "release := true" and its second look at "unparked". Whoever loses that handshake must pass the lock on.
+fn handoff_vs_cancel(e: &'static Engine, workers: usize, second_waiter: bool) {
+    rt_init(workers);
+    let m = Arc::new(Mutex::new(0u32));
+    static HELD: std::sync::atomic::AtomicBool = std::sync::atomic::AtomicBool::new(false);
+    e.begin();
+    let m1 = m.clone();
+    let u = e.spawn("holder", move || {
+        let g = m1.lock().unwrap();
+        HELD.store(true, Ordering::SeqCst);
+        e.wait_label("syncblocker.set_release");
+        drop(g);
+    });
+    e.wait_flag(&HELD);
+    let m2 = m.clone();
+    let w = go!(move || {
+        let mut g = m2.lock().unwrap();
+        *g += 1;
+    });
+    let x = if second_waiter {
+        let m3 = m.clone();
+        Some(go!(move || {
+            let mut g = m3.lock().unwrap();
+            *g += 1;
+        }))
+    } else {
+        None
+    };
+    // W (and X) are parked in lock()
+    e.quiesce();
+    unsafe { w.coroutine().cancel() };
+    let rw = w.join();
+    e.join(u);
+    if let Some(x) = x {
+        if x.join().is_err() {
+            e.fail("unexpected_panic", "the second waiter did not get the lock normally");
+        }
+    }
+    match m.try_lock() {
+        Ok(_) => {}
+        Err(TryLockError::WouldBlock) => e.fail("not_released", "everybody is done but try_lock() says WouldBlock: the lock was handed to the cancelled waiter and never passed on"),
+        Err(TryLockError::Poisoned(_)) => e.fail("poisoned", "mutex poisoned although nobody panicked inside it"),
+    }
+    e.note(&format!("w={} store_buffer={}", if rw.is_ok() { "ok" } else { "cancel" }, e.tso_used()));
+}
+
 fn mk(workers: usize, parts: &'static [(char, &'static str)], main_ops: &'static str, cancel: Option<usize>) -> Scenario {
     let name = format!(
         "mutex.{}.main{}{}{}",
@@ -170,6 +218,11 @@ pub fn build(quick: bool) -> Vec<Scenario> {
             v.push(Scenario::new("C05", "mutex_held", format!("mutex.held.{}.w{}.cancel0", parts_name(parts), w), Arc::new(move |e| run_held(e, w, parts, 0))).tier(quick));
         }
     }
+    // store-buffer model (x86-TSO on the shim atomics): the cancel / hand-off handshake of SyncBlocker
+    for w in [1usize, 2] {
+        v.push(Scenario::new("C05", "mutex_store_buffer", format!("mutex.handoff_vs_cancel.store_buffer.w{}", w), Arc::new(move |e| handoff_vs_cancel(e, w, false))).tso(&["src/sync/blocking.rs"]).bound(2));
+    }
+    v.push(Scenario::new("C05", "mutex_store_buffer", "mutex.handoff_vs_cancel.second_waiter.store_buffer.w1", Arc::new(move |e| handoff_vs_cancel(e, 1, true))).tso(&["src/sync/blocking.rs"]).bound(2));
     if !quick {
         v.push(mk(2, &[('C', "L"), ('C', "L"), ('C', "L")], "L", Some(1)).bound(2).deepen(3, budget));
         v.push(mk(2, &[('C', "L"), ('C', "L")], "L", None).fine().bound(2));
